@@ -36,6 +36,11 @@ pub struct CoCase {
     /// `call()`s are interleaved at the lock acquisitions of the in-flight map (schedule engine)
     #[serde(default)]
     pub burst: Option<Burst>,
+    /// right after the last call was made, the layer and every service handle are dropped: only
+    /// the request futures are left (`svc.clone().oneshot(req)` spawned on tasks, then the
+    /// original goes away)
+    #[serde(default)]
+    pub drop_services: bool,
 }
 
 #[derive(Clone, Debug, Serialize, Deserialize)]
@@ -77,11 +82,13 @@ fn case_strategy(tier: Tier) -> BoxedStrategy<CoCase> {
     let history = (
         prop::collection::vec(caller, 2..=hi),
         prop::collection::vec(any::<u8>(), 0..=48),
+        prop::bool::weighted(0.3),
     )
-        .prop_map(|(callers, order)| CoCase {
+        .prop_map(|(callers, order, drop_services)| CoCase {
             callers,
             order,
             burst: None,
+            drop_services,
         });
     let burst = (
         prop::collection::vec(prop_oneof![3 => Just(0u32), 1 => 0u32..2], 2..=4),
@@ -95,6 +102,7 @@ fn case_strategy(tier: Tier) -> BoxedStrategy<CoCase> {
             callers: vec![],
             order: vec![],
             burst: Some(Burst { keys, ok, schedule }),
+            drop_services: false,
         });
     prop_oneof![12 => history, 1 => burst].boxed()
 }
@@ -262,6 +270,8 @@ async fn interp(case: &CoCase) -> Verdict {
     let layer = CoalesceLayer::new(|r: &Req| crate::props::cache::CKey(r.key));
     let base = layer.layer(inner.clone());
     let mut clones: Vec<_> = (0..3).map(|_| base.clone()).collect();
+    let mut keep_alive = Some((layer, base));
+    let last_arrival = case.callers.iter().map(|c| c.at).max().unwrap_or(0);
     let horizon = case
         .callers
         .iter()
@@ -319,6 +329,10 @@ async fn interp(case: &CoCase) -> Verdict {
                 }));
             }
         }
+        if case.drop_services && t == last_arrival {
+            clones.clear();
+            keep_alive = None;
+        }
         for (i, c) in case.callers.iter().enumerate() {
             if let (Some(d), Some(tk)) = (c.cancel_after, task[i]) {
                 if c.at + d == t && sim.state(tk) == TaskState::Live {
@@ -328,6 +342,7 @@ async fn interp(case: &CoCase) -> Verdict {
         }
         sim.settle().await;
     }
+    let _ = &keep_alive;
 
     // ------------------------------------------------ oracle over the log
     let snap = log.snapshot();
@@ -541,6 +556,9 @@ async fn interp(case: &CoCase) -> Verdict {
     let mut classes = vec![];
     if waiters_of_cancelled >= 1 {
         classes.push("waiter_of_cancelled_or_panicked_leader");
+    }
+    if case.drop_services {
+        classes.push("service_handles_dropped_while_calls_in_flight");
     }
     if waiters_of_cancelled >= 2 {
         classes.push("two_or_more_waiters_of_cancelled_leader");
